@@ -3,6 +3,7 @@
 //! usage: harness <property> [--seed N] [--tier quick|thorough] [--shard i/n] [--out FILE] [extra…]
 mod common;
 mod c13;
+mod c19;
 mod c15;
 mod c18;
 mod c20;
@@ -23,6 +24,7 @@ pub fn eval_request(req: &str) -> String {
     let r = guarded(std::panic::AssertUnwindSafe(|| {
         None // one line per property module
             .or_else(|| c13::eval(op, a))
+            .or_else(|| c19::eval(op, a))
             .or_else(|| c15::eval(op, a))
             .or_else(|| c18::eval(op, a))
             .or_else(|| c20::eval(op, a))
@@ -79,6 +81,7 @@ fn main() {
             }
         }
         "C13" => c13::gen(&mut ctx),
+        "C19" => c19::gen(&mut ctx),
         "C15" => c15::gen(&mut ctx),
         "C18" => c18::gen(&mut ctx),
         "C20" => c20::gen(&mut ctx),
